@@ -496,3 +496,36 @@ package pipeline
 //@   check [fails] (ret1 != nil) == (len(unknown) > 0)
 //@   loop 0
 //@     invariant [idx] 0 <= $idx
+
+// interpolateOrderedMap over string/string ordered maps: the new contents are
+// the images of the live entries, in order, each key and value transformed once
+// (keys with distinct images).
+//@ define liveAt(m, x) := 0 <= x && x < len(m.items) && !m.items[x].deleted
+//@ define injOnOM(tf, m) := forall x int, y int :: {m.items[x], m.items[y]} liveAt(m, x) && liveAt(m, y) && x != y ==> tfT(tf, m.items[x].Key) != tfT(tf, m.items[y].Key)
+//@ define allOKOM(tf, m) := forall x int :: {m.items[x]} liveAt(m, x) ==> tfOK(tf, m.items[x].Key) && tfOK(tf, m.items[x].Value)
+
+//@ func interpolateOrderedMap[string,string]
+//@   requires tf != nil && (m != nil ==> ordered.wf(m))
+//@   assigns *m, all(*ordered.Map[string,string]), all([]ordered.Tuple[string,string]), all(map[string]int)
+//@   ensures [zero] (m == nil || old(len(m.index)) == 0) ==> ret == nil
+//@   ensures [wf] m != nil && ret == nil ==> ordered.wf(m)
+//@   ensures [image] m != nil && old(len(m.index)) != 0 && old(allOKOM(tf, m)) && old(injOnOM(tf, m)) ==> ret == nil &&
+//@       len(m.index) == old(len(m.index)) && len(m.items) == old(len(m.index)) &&
+//@       (forall x int :: {old(m.items[x])} old(liveAt(m, x)) ==>
+//@           m.items[old(ordered.live(m.items, x))].Key == tfT(tf, old(m.items[x].Key)) &&
+//@           m.items[old(ordered.live(m.items, x))].Value == tfT(tf, old(m.items[x].Value)) &&
+//@           !m.items[old(ordered.live(m.items, x))].deleted)
+//@   ensures [err] m != nil && old(len(m.index)) != 0 && !old(allOKOM(tf, m)) ==> ret != nil
+//@   loop Range.0
+//@     assigns out.index, out.items, *out.index, out.items[..]
+//@     invariant [arr] arr(out.items) == atloop(arr(out.items)) || loopfresh(out.items)
+//@     invariant [shape] 0 <= $idx && $idx <= len(m.items) && out != nil && fresh(out) && out != m && ordered.wf(out) && out.index != nil && fresh(out.index) && out.index == atloop(out.index) && fresh(out.items)
+//@     invariant [same] m.items == old(m.items) && m.index == old(m.index) && (forall x int :: {m.items[x]} 0 <= x && x < len(m.items) ==> m.items[x] == old(m.items[x])) && len(m.index) == old(len(m.index))
+//@     invariant [ok] forall x int :: {m.items[x]} 0 <= x && x < $idx && !m.items[x].deleted ==> tfOK(tf, m.items[x].Key) && tfOK(tf, m.items[x].Value)
+//@     invariant [count] old(injOnOM(tf, m)) ==> len(out.items) == ordered.live(m.items, $idx) && len(out.index) == len(out.items)
+//@     invariant [rank] old(injOnOM(tf, m)) ==> (forall y int :: {ordered.live(out.items, y)} 0 <= y && y <= len(out.items) ==> ordered.live(out.items, y) == y)
+//@     invariant [img] old(injOnOM(tf, m)) ==> (forall x int :: {m.items[x]} 0 <= x && x < $idx && !m.items[x].deleted ==>
+//@         out.items[ordered.live(m.items, x)].Key == tfT(tf, m.items[x].Key) && out.items[ordered.live(m.items, x)].Value == tfT(tf, m.items[x].Value) &&
+//@         !out.items[ordered.live(m.items, x)].deleted && out.index[tfT(tf, m.items[x].Key)] == ordered.live(m.items, x))
+//@     invariant [nokey] old(injOnOM(tf, m)) ==> (forall x int :: {m.items[x]} $idx <= x && x < len(m.items) && !m.items[x].deleted ==> !has(out.index, tfT(tf, m.items[x].Key)))
+//@     decreases len(m.items) - $idx
